@@ -70,6 +70,8 @@ def make_key(name, typ, alg, short=0):
 def setup_keys():
     make_key("hs", "oct64", "HS256")
     make_key("ec", "P-256", "ES256"); make_key("rsa", "rsa2048", "RS256"); make_key("ed", "ed25519", "EdDSA")
+    # a second key of each kind, for key files that hold more than one key
+    make_key("hs_2", "oct64", "HS256"); make_key("ec_2", "P-256", "ES256"); make_key("rsa_2", "rsa2048b", "RS256"); make_key("ed_2", "ed25519", "EdDSA")
     if THOROUGH:
         make_key("hs5", "oct64", "HS512"); make_key("ec3", "P-384", "ES384"); make_key("ec5", "P-521", "ES512"); make_key("ed4", "ed448", "EdDSA"); make_key("k1", "secp256k1", "ES256K"); make_key("ps", "rsa2048", "PS256")
 
@@ -143,6 +145,13 @@ def run_genver_case(case):
     if prov == "gnutls" and k["alg"] == "ES256K": prov = "openssl"
     gk = k["jwk_priv_alg" if with_alg else "jwk_priv_noalg"]; vk = k["jwk_pub_alg" if with_alg else "jwk_pub_noalg"]
     if k["type"].startswith("oct"): vk = gk
+    multi = case.get("multi", 0)
+    if multi and (case["key"] + "_2") in KEYS:
+        # one key file with several keys, given to both tools ("the same key file"): own private key with the other key's public or private half, in either order
+        o = KEYS[case["key"] + "_2"]; sfx = "alg" if with_alg else "noalg"; J = lambda path: json.load(open(path))
+        own_priv, own_pub, oth_priv, oth_pub = J(k["jwk_priv_" + sfx]), J(k["jwk_pub_" + sfx]), J(o["jwk_priv_" + sfx]), J(o["jwk_pub_" + sfx])
+        keys = {1: [own_priv, oth_pub], 2: [oth_pub, own_priv], 3: [own_pub, oth_priv], 4: [oth_priv, own_priv], 5: [own_priv, own_pub], 6: [{"kty": "EC", "crv": "P-256", "x": "AA", "y": "AA"}, own_priv]}[multi]
+        counter[0] += 1; mf = os.path.join(WORK, f"multi{counter[0]}.json"); json.dump({"keys": keys}, open(mf, "w")); gk = vk = mf; cls("multi-key-files")
     gargs = spell("k", "key", gk, case["k_style_g"])
     if not with_alg or case["always_alg"]: gargs += spell("a", "algorithm", k["alg"], case["a_style_g"])
     if case["no_iat"]: gargs += [["-n"], ["--no-iat"]][case["flag_style"]]
@@ -163,10 +172,11 @@ def run_genver_case(case):
     if short_with_arg: nontrivial(("genver", case["key"], with_alg, case["k_style_g"], case["a_style_g"], case["a_style_v"], case["k_style_v"], prov)); cls("short-spelled-options-with-arguments")
     sample({"tool": "jwt-generate", "args": gargs, "exit": rc})
     if san: raise Fail("C20:sanitizer-report:jwt-generate", err[-1500:], case)
+    if rc != 0 and multi: cls("multi-key-files:generate-refuses"); return   # nothing printed: nothing to verify
     if rc != 0: raise Fail("C20:jwt-generate:fails-with-documented-options:" + ("short" if case["a_style_g"] in (0, 1) else "long") + "-a" + (",print-" + ("short" if case["p_style_g"] in (0, 1) else "long") if case.get("print_g") else ""), f"args={gargs} exit={rc} stderr={err[-300:]}", case)
     tok = out.strip().split("\n")[-1].strip()
     if case["quiet_g"] and out.strip() != tok: raise Fail("C20:jwt-generate:quiet-prints-more-than-token", out[:300], case)
-    hrc, hv = helper(["valid", k["src"], tok])
+    hrc, hv = helper(["valid", k["src"], tok]) if not multi else (0, "")
     if hrc != 0: raise Fail("C20:jwt-generate:token-invalid-under-key", f"token {tok[:80]}... is {hv}", case)
     vargs = spell("k", "key", vk, case["k_style_v"])
     if not with_alg or case["always_alg"]: vargs += spell("a", "algorithm", k["alg"], case["a_style_v"])
@@ -275,7 +285,7 @@ verify_cases = st.fixed_dictionaries({"n": st.one_of(st.sampled_from(LENS), st.i
 sty = st.integers(0, 3)
 def genver_cases():
     return st.fixed_dictionaries({"key": st.sampled_from(sorted(KEYS)), "key_has_alg": st.booleans(), "always_alg": st.booleans(), "prov": st.sampled_from(["openssl", "gnutls"]), "k_style_g": sty, "a_style_g": sty, "k_style_v": sty, "a_style_v": sty,
-                                  "c_style": sty, "j_style": sty, "no_iat": st.booleans(), "claim": st.just(0), "claims": st.lists(st.integers(0, 11), min_size=0, max_size=3), "json": st.booleans(), "quiet_g": st.booleans(), "flag_style": st.integers(0, 1), "vq": st.integers(0, 2),
+                                  "c_style": sty, "j_style": sty, "no_iat": st.booleans(), "multi": st.sampled_from([0, 0, 0, 1, 2, 3, 4, 5, 6]), "claim": st.just(0), "claims": st.lists(st.integers(0, 11), min_size=0, max_size=3), "json": st.booleans(), "quiet_g": st.booleans(), "flag_style": st.integers(0, 1), "vq": st.integers(0, 2),
                                   "print_g": st.booleans(), "p_style_g": sty, "verbose_g": st.booleans(), "print_v": st.booleans(), "p_style_v": sty})
 convert_cases = st.fixed_dictionaries({"keys": st.lists(st.tuples(st.sampled_from(KEYTYPES), st.sampled_from(["priv", "pub"]), st.booleans(), st.integers(0, 2)), min_size=1, max_size=8), "o_style": sty, "d_style": sty, "quiet": st.booleans(), "flag_style": st.integers(0, 1)})
 
@@ -294,6 +304,10 @@ def main():
                     rc, out, err, san = tool("jwt-verify", ["-q", "-k", KEYS["hs"]["jwk_priv_alg"], "-"], stdin=("\n".join([t] + tail) + "\n").encode())
                     if san or (rc == 0) != (not any(x in BAD for x in tail)): bad = 1
             return 3 if bad else 0
+        if kind == "lastline":
+            pre = [[], [GOOD[0]], [GOOD[1], BAD[0]]][{0: 0, 1: 1, 2: 2}[case["pre"]]]; lasttok = [GOOD[2] + "x", GOOD[3], GOOD[4][:-1]][case["last"]]; last_ok = case["last"] == 1
+            rc, out, err, san = tool("jwt-verify", ["-q", "-k", KEYS["hs"]["jwk_priv_alg"], "-"], stdin=("\n".join(pre + [lasttok]) + case["nl"]).encode())
+            return 3 if san or (rc == 0) != (last_ok and case["pre"] != 2) else 0
         if kind not in FNS or case is None: return 2
         if "keys" in case: case["keys"] = [tuple(x) for x in case["keys"]]
         try: FNS[kind](case)
@@ -315,6 +329,15 @@ def main():
         try: guarded(run_verify_case, case)
         except AssertionError:
             f = last.get("f"); stats["violations"].append({"signature": f.sig, "what": f.what, "replay": {"kind": "verify", "case": f.case}})
+    if A.worker in (12, 13):   # the last line on stdin, with and without a final newline: a token that is good but for its LAST character
+        for nl in ("", "\n"):
+            for pre in ([], [GOOD[0]], [GOOD[1], BAD[0]]):
+                for lasttok, last_ok in ((GOOD[2] + "x", False), (GOOD[3], True), (GOOD[4][:-1], False)):
+                    toks = pre + [lasttok]; want_zero = last_ok and not any(t in BAD for t in pre)
+                    rc, out, err, san = tool("jwt-verify", ["-q", "-k", KEYS["hs"]["jwk_priv_alg"], "-"] if A.worker == 12 else ["-k", KEYS["hs"]["jwk_priv_alg"], "-"], stdin=("\n".join(toks) + nl).encode())
+                    stats["evaluations"] += 1; cls("last-line-lists"); nontrivial(("lastline", nl, len(pre), last_ok, A.worker))
+                    if san or (rc == 0) != want_zero:
+                        stats["violations"].append({"signature": "C20:jwt-verify:exit-status:" + ("zero-although-tokens-failed" if rc == 0 else "nonzero-although-all-verified") + ":last-line-of-stdin", "what": f"stdin list of {len(toks)} tokens, final newline {'present' if nl else 'absent'}, last token {'valid' if last_ok else 'valid but for its last character'}: exit {rc}", "replay": {"kind": "lastline", "case": {"nl": nl, "pre": len(pre), "last": [GOOD[2] + "x", GOOD[3], GOOD[4][:-1]].index(lasttok)}}})
     for li in range(len(LONG_GOOD)):
         if li % A.nworkers != A.worker: continue
         for tail in ([], [BAD[0]], [GOOD[0], BAD[1]]):
